@@ -93,6 +93,17 @@ func genC19(rt *rapid.T) *Request {
 	rq.Scripts = []FlowScript{{Default: HopSpec{Silent: true}}}
 	rq.EchoBase = oneOf(rt, "echo_base", uint32(0), 0xfffe)
 	rq.PktIDBase = oneOf(rt, "pktid_base", uint32(0), 0xfff0)
+	// a third of the requests are not the first the process serves for this target text: an earlier, valid request
+	// named the same target with another port, protocol or family wish (nothing of it may carry over)
+	if !rq.SackSrv && oneOf(rt, "history", false, false, true) {
+		n := rapid.IntRange(1, 2).Draw(rt, "n_before")
+		for i := 0; i < n; i++ {
+			bp := ReqParams{Hostname: p.Hostname, Protocol: oneOf(rt, fmt.Sprintf("b%d_proto", i), "udp", "icmp", "tcp"), TCPMethod: "syn",
+				Port: oneOf(rt, fmt.Sprintf("b%d_port", i), 80, 443, 33434, 1, 65535), MinTTL: 1, MaxTTL: 2, TimeoutMs: 5, DelayMs: 1, Queries: 1,
+				WantV6: oneOf(rt, fmt.Sprintf("b%d_v6", i), p.WantV6, p.WantV6, !p.WantV6)}
+			rq.Before = append(rq.Before, bp)
+		}
+	}
 	return rq
 }
 
